@@ -348,21 +348,40 @@ Section Export.
                                (f_parts f)) (ds_feats ds).
 
   (* inputs outside the two known failure classes *)
+  (* scalars have len(ds) events; n-d features may be shorter (aborted
+     acquisition); image-like sources accept array indexing unless they are
+     integer-only sources of a non-hdf5 dataset exported with filtering *)
   Definition part_guard (ds : dset) (filtered : bool) (k : kind) (p : part)
     : bool :=
-    (len (p_data p) =? ds_len ds)
-    && match k with
-       | KImage | KTrace | KOther =>
-           p_fancy p || (negb (p_slice p) && filtered && negb (ds_hdf5 ds))
-       | _ => true
-       end.
+    match k with
+    | KScalar | KIndex => len (p_data p) =? ds_len ds
+    | KContour => len (p_data p) <=? ds_len ds
+    | KImage | KTrace | KOther =>
+        (len (p_data p) <=? ds_len ds)
+        && (p_fancy p || (negb (p_slice p) && filtered && negb (ds_hdf5 ds)))
+    end.
 
-  Definition export_guard (ds : dset) (filtered : bool) (req : list Z) : bool :=
+  (* with the length check some requested array spans the whole dataset
+     (otherwise the filter is not clipped: finding
+     C02-short-features-indexerror); without the check all do *)
+  Definition lens_guard (ds : dset) (skip : bool) (fs : list feat) : bool :=
+    if skip then forallb (fun l => l =? ds_len ds) (lengths fs)
+    else match lengths fs with
+         | [] => true
+         | ls => existsb (fun l => l =? ds_len ds) ls
+         end.
+
+  Definition export_guard (ds : dset) (filtered skip : bool) (req : list Z)
+    : bool :=
     forallb (fun n => match lookup n (ds_feats ds) with
                       | None => false
                       | Some f => forallb (part_guard ds filtered (f_kind f))
                                           (f_parts f)
-                      end) (sortset req).
+                      end) (sortset req)
+    && match lookup_all ds (sortset req) with
+       | Ok fs => lens_guard ds skip fs
+       | Err _ => false
+       end.
 
   (* ---- Export.tsv -------------------------------------------------------- *)
   (* data = [ds[c][ds.filter.all] for c in features] (or ds[c]);
@@ -415,13 +434,13 @@ Definition dfeat (t : Z * Z * list (Z * Z * Z * Z * list Z)) : feat Z :=
   let '(n, k, ps) := t in mkFeat Z n (dkind k) (map dpart ps).
 
 (* stacks case = (route 0 fast / 1 slow, chunk bytes, event size, data, idx);
-   result: chunk lengths, 0 - 1, events in order *)
+   result: the events of all stacks in order *)
 Definition stacks_flat (case : Z * Z * Z * list Z * list Z) : list Z :=
   let '(route, cfg, esize, dat, idx) := case in
   let c := best_chunk cfg esize in
   let chunks := if route =? 0 then stacks_fast (-7) c dat idx
                 else stacks_slow (-7) 0 c dat idx in
-  map len chunks ++ [-1] ++ concat chunks.
+  concat chunks.
 
 Definition enc_feat_content (calls : list (call Z)) (f : feat Z) : list Z :=
   flat_map (fun p => let cnt := content Z calls (f_name f) (p_key p) in
@@ -465,26 +484,37 @@ Definition tsv_flat
    filtered, else unchanged; uuid4 is an oracle value [rnd]), every other key
    (here: the sample name) unchanged; the source's logs / tables are stored
    (with the prefix) exactly when the flag is set. *)
+(* logs and tables: hw.store_log(f"{meta_prefix}{log}", ds.logs[log]) for
+   every log of the source when the flag is set (tables alike).  A text is a
+   list of lines (tables: rows); write_text appends to an existing name, so
+   what a name holds is the concatenation of what was stored under it.  The
+   prefixing of names is the function [pre]. *)
+Definition text := (Z * list Z)%type.
+Definition text_calls (flag : bool) (pre : Z -> Z) (src : list text) : list text :=
+  if flag then map (fun nl => (pre (fst nl), snd nl)) src else [].
+Definition text_content (calls : list text) (name : Z) : list Z :=
+  flat_map (fun c => if fst c =? name then snd c else []) calls.
+
 Record smeta := mkSmeta {
   sm_runid : option Z;        (* config["experiment"]["run identifier"] *)
   sm_hashid : option Z;       (* md5(time_date_setup identifier), if defined *)
   sm_sample : Z;
-  sm_logs : list Z;           (* names of the (non-empty) logs *)
-  sm_tables : list Z }.
+  sm_logs : list text;        (* the (non-empty) logs: name, lines *)
+  sm_tables : list text }.    (* the tables: name, rows *)
 
 Record ometa := mkOmeta {
   om_runid : option (option Z * option Z);   (* (identifier, random suffix) *)
   om_sample : Z;
   om_count : Z;
-  om_logs : list Z;
-  om_tables : list Z }.
+  om_logs : list text;        (* store_log calls for source logs *)
+  om_tables : list text }.
 
 (* RTDCBase.get_measurement_identifier *)
 Definition meas_id (sm : smeta) : option Z :=
   match sm_runid sm with Some r => Some r | None => sm_hashid sm end.
 
-Definition export_meta (rnd : Z) (sm : smeta) (filtered logs tables : bool)
-           (cnt : Z) : ometa :=
+Definition export_meta (rnd : Z) (pre : Z -> Z) (sm : smeta)
+           (filtered logs tables : bool) (cnt : Z) : ometa :=
   {| om_runid := if filtered then Some (meas_id sm, Some rnd)
                  else match sm_runid sm with
                       | Some r => Some (Some r, None)
@@ -492,18 +522,19 @@ Definition export_meta (rnd : Z) (sm : smeta) (filtered logs tables : bool)
                       end;
      om_sample := sm_sample sm;
      om_count := cnt;
-     om_logs := if logs then sm_logs sm else [];
-     om_tables := if tables then sm_tables sm else [] |}.
+     om_logs := text_calls logs pre (sm_logs sm);
+     om_tables := text_calls tables pre (sm_tables sm) |}.
 
 Definition req_features (features : option (list Z)) (innate : list Z) : list Z :=
   match features with None => innate | Some l => l end.
 
 Definition export_full (A : Type) (d z : A) (enum : Z -> A) (rnd cfg : Z)
+           (pre : Z -> Z)
            (ds : dset A) (innate : list Z) (sm : smeta) (filt : list bool)
            (filtered skip logs tables basins : bool)
            (features : option (list Z)) : res (list (call A) * ometa) :=
   bind (export A d z enum cfg ds filt filtered skip (req_features features innate))
-       (fun r => Ok (fst r, export_meta rnd sm filtered logs tables (snd r))).
+       (fun r => Ok (fst r, export_meta rnd pre sm filtered logs tables (snd r))).
 
 (* number of events every stored array holds when the length check is on *)
 Definition spec_count (filtered : bool) (filt : list bool) (lim : option Z) : Z :=
@@ -539,30 +570,47 @@ Definition rectify_chcount (src : option Z) (nfl : Z) : option Z :=
   end.
 
 (* full case = (export case, (features given?, innate names),
-               (logs, tables, basins), (runid, hashid, sample, logs, tables),
-               (source channel count, names of fl1_max..fl3_max));
-   rnd is fixed to 7: the harness only observes whether a suffix is there *)
+               (logs, tables, basins), (runid, hashid, sample),
+               (source logs, source tables), (source channel count, names of
+               fl1_max..fl3_max));
+   rnd is fixed to 7 (the harness only observes whether a suffix is there);
+   names are prefixed by adding 1000.  The last two numbers are not
+   observations of the file: spec_count (theorem side, compared with the
+   oracle's expectation) and export_guard (must imply "no exception"). *)
+Definition enc_texts (calls : list text) (pre : Z -> Z) (src : list text) : list Z :=
+  flat_map (fun nl => let c := text_content calls (pre (fst nl)) in len c :: c) src.
+
 Definition export_full_flat
   (case : ((Z * Z * Z * Z) * list (Z * Z * list (Z * Z * Z * Z * list Z))
            * list bool * (Z * Z) * list Z)
           * (Z * list Z) * (Z * Z * Z)
-          * (list Z * list Z * Z * list Z * list Z)
+          * (list Z * list Z * Z)
+          * (list (Z * list Z) * list (Z * list Z))
           * (list Z * list Z)) : list Z :=
-  let '(ec, (given, innate), (logs, tables, basins), (rid, hid, smp, lgs, tbs),
-        (chsrc, flnames)) := case in
+  let '(ec, (given, innate), (logs, tables, basins), (rid, hid, smp),
+        (lgs, tbs), (chsrc, flnames)) := case in
   let '(hd, fts, filt, fl, req) := ec in
   let '(cfg, h5, n, cnt) := hd in
   let '(filtered, skip) := fl in
   let ds := mkDs Z (zb h5) n cnt (map dfeat fts) in
-  let o2 := fun l => match l with [] => None | x :: _ => Some x end in
+  let o2 := fun l : list Z => match l with [] => None | x :: _ => Some x end in
   let sm := mkSmeta (o2 rid) (o2 hid) smp lgs tbs in
   let feats := if zb given then Some req else None in
-  match export_full Z (-7) 0 (fun k => k) 7 cfg ds innate sm filt (zb filtered)
+  let pre := fun k => k + 1000 in
+  let reqf := req_features feats innate in
+  let tail :=
+      [match lookup_all Z ds (sortset reqf) with
+       | Ok fs => if zb skip then -1
+                  else spec_count (zb filtered) filt (spec_lim Z false fs)
+       | Err _ => -1
+       end;
+       if export_guard Z ds (zb filtered) (zb skip) reqf then 1 else 0] in
+  match export_full Z (-7) 0 (fun k => k) 7 cfg pre ds innate sm filt (zb filtered)
                     (zb skip) (zb logs) (zb tables) (zb basins) feats with
-  | Err c => [1; c]
+  | Err c => [1; c] ++ tail
   | Ok (calls, om) =>
       [0; om_count om] ++
-      match lookup_all Z ds (sortset (req_features feats innate)) with
+      match lookup_all Z ds (sortset reqf) with
       | Ok fs => flat_map (enc_feat_content calls) fs
       | Err _ => []
       end
@@ -572,5 +620,7 @@ Definition export_full_flat
       | Some (i, s) => [1] ++ oz i ++ [match s with None => 0 | Some _ => 1 end]
       end
       ++ [om_sample om; len (om_logs om); len (om_tables om)]
+      ++ enc_texts (om_logs om) pre lgs ++ enc_texts (om_tables om) pre tbs
       ++ oz (rectify_chcount (o2 chsrc) (count_fl flnames calls))
+      ++ tail
   end.
